@@ -146,6 +146,20 @@ func sortStrings(s []string) {
 	}
 }
 
+// StartJournalQuiet is StartJournal without baseline events: files already
+// present are only given identities, which are returned by base name.
+func StartJournalQuiet(root string) map[string]int {
+	Track(root)
+	tab.mu.Lock()
+	defer tab.mu.Unlock()
+	tab.journal = true
+	ids := map[string]int{}
+	for p, id := range tab.ids {
+		ids[filepath.Base(p)] = id
+	}
+	return ids
+}
+
 // Stop ends tracking and journaling and returns the journal.
 func Stop() []Event {
 	tab.mu.Lock()
